@@ -230,6 +230,18 @@ def gen_socks_consts(repo):
                 and s.targets[0].id == nm and isinstance(s.value, ast.Constant)]
         need(len(vals) == 1, nm)
         L.append('Definition c_%s : N := %d.' % (nm, vals[0]))
+    # the shortest buffer _parse_request_reply looks at: first statement `if len(self._data) < N: return`
+    fn = find_func(cls, '_parse_request_reply')
+    body = [s for s in fn.body if not (isinstance(s, ast.Expr) and isinstance(s.value, ast.Constant))]
+    need(body and isinstance(body[0], ast.If) and not body[0].orelse and len(body[0].body) == 1
+         and isinstance(body[0].body[0], ast.Return) and body[0].body[0].value is None, "reply: length guard")
+    t = body[0].test
+    need(isinstance(t, ast.Compare) and len(t.ops) == 1 and isinstance(t.ops[0], ast.Lt)
+         and isinstance(t.left, ast.Call) and isinstance(t.left.func, ast.Name) and t.left.func.id == 'len'
+         and isinstance(t.left.args[0], ast.Attribute) and t.left.args[0].attr == '_data'
+         and isinstance(t.comparators[0], ast.Constant) and isinstance(t.comparators[0].value, int)
+         and t.comparators[0].value >= 5, "reply: length guard test")
+    L.append('Definition c_MIN_REPLY : N := %d.' % t.comparators[0].value)
     return '\n'.join(L) + '\n'
 
 
